@@ -138,6 +138,35 @@ Proof.
   exists (a_live a). exact (recovered_stream_is_sorted_frames js k n s a HI Hr).
 Qed.
 
+(* acknowledged operations: once operation k has returned, the recovered image is exactly the store
+   state after k+1 operations (and it satisfies the invariant) - for process kill and power loss *)
+Theorem acked_kill_image_is_store : forall now js k n o,
+  (k < length js)%nat -> admissible now (map jop_to_op js) ->
+  nth_error js k = Some o ->
+  (length (program (fst (exec_ops (firstn k js))) o) <= n)%nat ->
+  InvZ (c_after now (map jop_to_op (firstn (S k) js))) (a_after now (map jop_to_op (firstn (S k) js))) /\
+  replay (kill_image (crash_state js k n)) = parts_of (c_after now (map jop_to_op (firstn (S k) js))).
+Proof.
+  intros now js k n o Hk Hadm Hnth Hlen.
+  destruct (prefix_consistent now js (S k) Hadm) as [HI Hp].
+  split; [exact HI|].
+  rewrite (kill_acked js k Hk n o Hnth Hlen). exact Hp.
+Qed.
+
+Theorem acked_power_image_is_store : forall now js k n o img,
+  (k < length js)%nat -> admissible now (map jop_to_op js) ->
+  nth_error js k = Some o ->
+  (length (program (fst (exec_ops (firstn k js))) o) <= n)%nat ->
+  In img (power_images (crash_state js k n)) ->
+  InvZ (c_after now (map jop_to_op (firstn (S k) js))) (a_after now (map jop_to_op (firstn (S k) js))) /\
+  replay img = parts_of (c_after now (map jop_to_op (firstn (S k) js))).
+Proof.
+  intros now js k n o img Hk Hadm Hnth Hlen Himg.
+  destruct (prefix_consistent now js (S k) Hadm) as [HI Hp].
+  split; [exact HI|].
+  rewrite (power_acked js k Hk n o img Hnth Hlen Himg). exact Hp.
+Qed.
+
 (* ------------------------------------------------------------------ 7 *)
 
 Definition g1 : frame := mkFrame 5 0 [97] None None None.
